@@ -54,19 +54,32 @@ section
 variable (text : List Char) (file : List UInt8)
 
 /-- what a call of `NextToken` must deliver before the characters `suf` -/
-def Outcome (b : Bool) (suf : List Char) (r : Option Token × Lexer) : Prop :=
+def Outcome (b : Bool) (pre suf : List Char) (r : Option Token × Lexer) : Prop :=
   match specNext text.length suf with
   | none => r.2.errout ≠ []
   | some none => r.1 = none ∧ r.2.state = .done ∧ Ready file r.2 ∧ r.2.inPattern = b
   | some (some (t, rest)) =>
     (badEsc b t = true ∧ r.2.errout ≠ []) ∨
     (badEsc b t = false ∧ r.1 = some (conv text file t) ∧
-      ∃ pre', text = pre' ++ rest ∧ Gnd file r.2 pre' rest ∧ r.2.inPattern = b)
+      ∃ pre', text = pre' ++ rest ∧ pre.length < pre'.length ∧ Gnd file r.2 pre' rest ∧ r.2.inPattern = b)
 
-theorem Outcome_congr (b : Bool) (suf suf2 : List Char) (r : Option Token × Lexer)
-    (h : skipGround suf = skipGround suf2) (ho : Outcome text file b suf2 r) : Outcome text file b suf r := by
+theorem Outcome_congr (b : Bool) (pre pre2 suf suf2 : List Char) (r : Option Token × Lexer)
+    (h : skipGround suf = skipGround suf2) (hl : pre.length ≤ pre2.length) (ho : Outcome text file b pre2 suf2 r) :
+    Outcome text file b pre suf r := by
   unfold Outcome specNext at *
-  rw [h]; exact ho
+  rw [h]
+  cases hsn : specNextG text.length (skipGround suf2) with
+  | none => rw [hsn] at ho; exact ho
+  | some o =>
+    cases o with
+    | none => rw [hsn] at ho; exact ho
+    | some p =>
+      obtain ⟨t, rest⟩ := p
+      rw [hsn] at ho
+      simp only at ho ⊢
+      rcases ho with h1 | ⟨h1, h2, pre', h3, h4, h5⟩
+      · exact Or.inl h1
+      · exact Or.inr ⟨h1, h2, pre', h3, by omega, h5⟩
 
 /-- the token the lexer emits is the token of the reference reader -/
 theorem tok_eq (P r : List Char) (c : Char) (ht : text = P ++ c :: r) (tk : Tok) (sline scol : Int)
@@ -132,7 +145,7 @@ theorem punct_case (b : Bool) (f : Nat) (l : Lexer) (P r : List Char) (c : Char)
     (hc : (c = ';' ∧ tk = .semi) ∨ (c = '{' ∧ tk = .lbrace) ∨ (c = '}' ∧ tk = .rbrace)) :
     (nextTokenLoop (f + 1) (setState .ground (emit (.punct (UInt8.ofNat c.toNat)) (next l).2))).1 =
       some (conv text file ⟨tk, text.length - (r.length + 1)⟩) ∧
-    ∃ pre', text = pre' ++ r ∧
+    ∃ pre', text = pre' ++ r ∧ P.length < pre'.length ∧
       Gnd file (nextTokenLoop (f + 1) (setState .ground (emit (.punct (UInt8.ofNat c.toNat)) (next l).2))).2 pre' r ∧
       (nextTokenLoop (f + 1) (setState .ground (emit (.punct (UInt8.ofNat c.toNat)) (next l).2))).2.inPattern = b := by
   obtain ⟨n1, n2, n3, _, n5⟩ := next_char l P r c hk.cur (hk.pos.posN _)
@@ -151,7 +164,7 @@ theorem punct_case (b : Bool) (f : Nat) (l : Lexer) (P r : List Char) (c : Char)
   obtain ⟨q1, q2, q3⟩ := finish file f _ _ (P ++ [c]) r e1 e2 ⟨e3.trans n2.before, e4.trans n2.rest, e5.trans n2.line⟩
     (posN_of_fields (n3.posN r) e6 e7) (e8.trans hr1.errout) (e9.trans hr1.errcnt) (e10.trans hr1.fault)
     (e11.trans hr1.file)
-  exact ⟨q1, P ++ [c], by rw [ht]; simp, q2, by rw [q3, e12, n5.inPattern]; exact hb⟩
+  exact ⟨q1, P ++ [c], by rw [ht]; simp, by simp, q2, by rw [q3, e12, n5.inPattern]; exact hb⟩
 
 theorem consume_tk (l : Lexer) (P suf : List Char) (hc : Cur l P suf) (hp : Pos l P) (hr : Ready file l)
     (hst : l.state = .ground) (sl sc : Int) (hsl : l.sline = sl) (hsc : l.scol = sc) :
@@ -179,7 +192,7 @@ theorem sq_case (b : Bool) (f : Nat) (l : Lexer) (P r : List Char) (ht : text = 
     | none => ∀ g, (nextTokenLoop g (groundSQuote l)).2.errout ≠ []
     | some (s, r') =>
       (nextTokenLoop (f + 1) (groundSQuote l)).1 = some (conv text file ⟨.sq s, text.length - (r.length + 1)⟩) ∧
-      ∃ pre', text = pre' ++ r' ∧ Gnd file (nextTokenLoop (f + 1) (groundSQuote l)).2 pre' r' ∧
+      ∃ pre', text = pre' ++ r' ∧ P.length < pre'.length ∧ Gnd file (nextTokenLoop (f + 1) (groundSQuote l)).2 pre' r' ∧
         (nextTokenLoop (f + 1) (groundSQuote l)).2.inPattern = b := by
   obtain ⟨n1, n2, n3, _, n5⟩ := next_char l P r '\'' hk.cur (hk.pos.posN _)
   have hr1 : Ready file (next l).2 := n5.ready hk.ready
@@ -239,7 +252,7 @@ theorem sq_case (b : Bool) (f : Nat) (l : Lexer) (P r : List Char) (ht : text = 
       (by rw [setState_errcnt, m5.errcnt, f7]; exact hr3.errcnt)
       (by rw [setState_fault, m5.fault, f8]; exact hr3.fault)
       (by rw [setState_file, m5.file, f9]; exact hr3.file)
-    refine ⟨q1, P ++ ['\''] ++ s ++ ['\''], by rw [ht, hsplit]; simp, q2, ?_⟩
+    refine ⟨q1, P ++ ['\''] ++ s ++ ['\''], by rw [ht, hsplit]; simp, by simp, q2, ?_⟩
     rw [q3, setState_inPattern, m5.inPattern, f10, u3.inPattern, c8, n5.inPattern]; exact hb
 
 theorem tcolAfter_quote (P : List Char) (r : List Char) (c : Char) (ht : text = P ++ c :: r) (hn : c ≠ '\n')
@@ -256,14 +269,15 @@ theorem tcolAfter_quote (P : List Char) (r : List Char) (c : Char) (ht : text = 
 theorem dq_case (b : Bool) (f : Nat) (l : Lexer) (P r : List Char) (ht : text = P ++ '"' :: r)
     (hk : Tk file l P ('"' :: r)) (hb : l.inPattern = b) :
     match scanDq r with
-    | none => (nextTokenLoop (f + 1) (setState .qstring (next l).2)).2.errout ≠ []
+    | none => ∀ g, (nextTokenLoop (g + 1) (setState .qstring (next l).2)).2.errout ≠ []
     | some (items, r') =>
       (badEsc b ⟨.dq items, text.length - (r.length + 1)⟩ = true ∧
-        (nextTokenLoop (f + 1) (setState .qstring (next l).2)).2.errout ≠ []) ∨
+        ∀ g, (nextTokenLoop (g + 1) (setState .qstring (next l).2)).2.errout ≠ []) ∨
       (badEsc b ⟨.dq items, text.length - (r.length + 1)⟩ = false ∧
         (nextTokenLoop (f + 2) (setState .qstring (next l).2)).1 =
           some (conv text file ⟨.dq items, text.length - (r.length + 1)⟩) ∧
-        ∃ pre', text = pre' ++ r' ∧ Gnd file (nextTokenLoop (f + 2) (setState .qstring (next l).2)).2 pre' r' ∧
+        ∃ pre', text = pre' ++ r' ∧ P.length < pre'.length ∧
+          Gnd file (nextTokenLoop (f + 2) (setState .qstring (next l).2)).2 pre' r' ∧
           (nextTokenLoop (f + 2) (setState .qstring (next l).2)).2.inPattern = b) := by
   obtain ⟨n1, n2, n3, _, n5⟩ := next_char l P r '"' hk.cur (hk.pos.posN _)
   have hr1 : Ready file (next l).2 := n5.ready hk.ready
@@ -288,14 +302,14 @@ theorem dq_case (b : Bool) (f : Nat) (l : Lexer) (P r : List Char) (ht : text = 
   cases hs : scanDq r with
   | none =>
     simp only
-    exact hbadcase (Or.inl hs) f
+    exact hbadcase (Or.inl hs)
   | some p =>
     obtain ⟨items, r'⟩ := p
     simp only
     obtain ⟨hsplit, hwf⟩ := scanDq_split r.length r (Nat.le_refl _) items r' hs
     by_cases hbe : badEsc b ⟨.dq items, text.length - (r.length + 1)⟩ = true
     · left
-      refine ⟨hbe, hbadcase (Or.inr ⟨items, r', hs, ?_, ?_⟩) f⟩
+      refine ⟨hbe, hbadcase (Or.inr ⟨items, r', hs, ?_, ?_⟩)⟩
       · rw [hpat1]
         simp only [badEsc, Bool.and_eq_true, Bool.not_eq_eq_eq_not, Bool.not_true] at hbe
         exact hbe.1
@@ -334,7 +348,7 @@ theorem dq_case (b : Bool) (f : Nat) (l : Lexer) (P r : List Char) (ht : text = 
       obtain ⟨q1, q2, q3⟩ := finish file f _ _ (P ++ ['"'] ++ (itemsChars items ++ ['"'])) r' e1 e2
         ⟨e3.trans g2.before, e4.trans g2.rest, e5.trans g2.line⟩ (posN_of_fields (g3.posN r') e6 e7)
         (e8.trans hr'.errout) (e9.trans hr'.errcnt) (e10.trans hr'.fault) (e11.trans hr'.file)
-      exact ⟨q1, P ++ ['"'] ++ (itemsChars items ++ ['"']), by rw [ht, hsplit]; simp, q2,
+      exact ⟨q1, P ++ ['"'] ++ (itemsChars items ++ ['"']), by rw [ht, hsplit]; simp, by simp, q2,
         by rw [q3, e12, g4.inPattern]; exact hpat1⟩
 
 theorem dropWhile_head_delim (r : List Char) : ∀ d t, r.dropWhile (fun x => !isDelim x) = d :: t → isDelim d = true := by
@@ -353,10 +367,10 @@ theorem unq_finish (b : Bool) (f : Nat) (l2 : Lexer) (P tk rest0 : List Char) (c
     (ht : text = P ++ c :: r) (hcr : c :: r = tk ++ rest0)
     (hc : Cur l2 (P ++ tk) rest0) (hp : PosN l2 (P ++ tk) rest0) (hst : l2.start = (encodeChars P).length)
     (hsl : l2.sline = lineAfter P) (hsc : l2.scol = colAfter P) (hr : Ready file l2) (hs : l2.state = .unquoted)
-    (hb : l2.inPattern = b) :
+    (hb : l2.inPattern = b) (hne : 0 < (tk ++ rest0.takeWhile (fun x => !isDelim x)).length) :
     (nextTokenLoop (f + 2) l2).1 = some (conv text file
       ⟨.unq (tk ++ rest0.takeWhile (fun x => !isDelim x)), text.length - (r.length + 1)⟩) ∧
-    ∃ pre', text = pre' ++ rest0.dropWhile (fun x => !isDelim x) ∧
+    ∃ pre', text = pre' ++ rest0.dropWhile (fun x => !isDelim x) ∧ P.length < pre'.length ∧
       Gnd file (nextTokenLoop (f + 2) l2).2 pre' (rest0.dropWhile (fun x => !isDelim x)) ∧
       (nextTokenLoop (f + 2) l2).2.inPattern = b := by
   rw [nextTokenLoop_unquoted _ l2 hr.items hs]
@@ -381,7 +395,8 @@ theorem unq_finish (b : Bool) (f : Nat) (l2 : Lexer) (P tk rest0 : List Char) (c
     (rest0.dropWhile (fun x => !isDelim x)) e1 e2 ⟨e3.trans h2.before, e4.trans h2.rest, e5.trans h2.line⟩
     (posN_of_fields h3 e6 e7) (e8.trans hr'.errout) (e9.trans hr'.errcnt) (e10.trans hr'.fault)
     (e11.trans hr'.file)
-  refine ⟨q1, P ++ (tk ++ rest0.takeWhile (fun x => !isDelim x)), ?_, q2, by rw [q3, e12, h4.inPattern]; exact hb⟩
+  refine ⟨q1, P ++ (tk ++ rest0.takeWhile (fun x => !isDelim x)), ?_, by rw [List.length_append]; omega, q2,
+    by rw [q3, e12, h4.inPattern]; exact hb⟩
   rw [ht, hcr, List.append_assoc, List.append_assoc]
   congr 2
 
@@ -517,7 +532,8 @@ theorem plus_quote (b : Bool) (f : Nat) (l : Lexer) (P r' : List Char) (q : Char
     (ht : text = P ++ '+' :: q :: r') (hk : Tk file l P ('+' :: q :: r')) (hb : l.inPattern = b) :
     (nextTokenLoop (f + 1) (groundPlus l)).1 =
       some (conv text file ⟨.unq ['+'], text.length - ((q :: r').length + 1)⟩) ∧
-    ∃ pre', text = pre' ++ q :: r' ∧ Gnd file (nextTokenLoop (f + 1) (groundPlus l)).2 pre' (q :: r') ∧
+    ∃ pre', text = pre' ++ q :: r' ∧ P.length < pre'.length ∧
+      Gnd file (nextTokenLoop (f + 1) (groundPlus l)).2 pre' (q :: r') ∧
       (nextTokenLoop (f + 1) (groundPlus l)).2.inPattern = b := by
   obtain ⟨n1, n2, n3, _, n5⟩ := next_char l P _ '+' hk.cur (hk.pos.posN _)
   obtain ⟨p1, p2, p3, p4⟩ := peek_char (next l).2 _ _ q n2 (n3.posN _)
@@ -542,7 +558,7 @@ theorem plus_quote (b : Bool) (f : Nat) (l : Lexer) (P r' : List Char) (q : Char
   obtain ⟨q1, q2, q3⟩ := finish file f _ _ (P ++ ['+']) (q :: r') e1 e2
     ⟨e3.trans p2.before, e4.trans p2.rest, e5.trans p2.line⟩ (posN_of_fields p3 e6 e7)
     (e8.trans hr2.errout) (e9.trans hr2.errcnt) (e10.trans hr2.fault) (e11.trans hr2.file)
-  exact ⟨q1, P ++ ['+'], by rw [ht]; simp, q2, by rw [q3, e12, hfr.inPattern]; exact hb⟩
+  exact ⟨q1, P ++ ['+'], by rw [ht]; simp, by simp, q2, by rw [q3, e12, hfr.inPattern]; exact hb⟩
 
 /-! ### the dispatch of `lexGround` -/
 
@@ -609,10 +625,25 @@ theorem encodeChars_length_ge (a : List Char) : a.length ≤ (encodeChars a).len
     have := encChar_length_pos c
     omega
 
+/-- `unq_finish` for a lexer that has just been put into the state `lexUnquoted` -/
+theorem unq_from (b : Bool) (f : Nat) (X : Lexer) (P tk rest0 : List Char) (c : Char) (r : List Char)
+    (ht : text = P ++ c :: r) (hcr : c :: r = tk ++ rest0)
+    (hc : Cur X (P ++ tk) rest0) (hp : PosN X (P ++ tk) rest0) (hst : X.start = (encodeChars P).length)
+    (hsl : X.sline = lineAfter P) (hsc : X.scol = colAfter P) (hr : Ready file X) (hb : X.inPattern = b)
+    (hne : 0 < (tk ++ rest0.takeWhile (fun x => !isDelim x)).length) :
+    (nextTokenLoop (f + 2) (setState .unquoted X)).1 = some (conv text file
+      ⟨.unq (tk ++ rest0.takeWhile (fun x => !isDelim x)), text.length - (r.length + 1)⟩) ∧
+    ∃ pre', text = pre' ++ rest0.dropWhile (fun x => !isDelim x) ∧ P.length < pre'.length ∧
+      Gnd file (nextTokenLoop (f + 2) (setState .unquoted X)).2 pre' (rest0.dropWhile (fun x => !isDelim x)) ∧
+      (nextTokenLoop (f + 2) (setState .unquoted X)).2.inPattern = b :=
+  unq_finish text file b f (setState .unquoted X) P tk rest0 c r ht hcr ⟨hc.before, hc.rest, hc.line⟩
+    (posN_of_fields hp (setState_col _ _) (setState_tcol _ _)) hst hsl hsc
+    ⟨hr.items, hr.errout, hr.errcnt, hr.fault, hr.file⟩ (setState_state _ _) hb hne
+
 /-- **(d)** `NextToken` from the ground state against the next token of the reference reader -/
 theorem ground_sim : ∀ (n : Nat) (suf : List Char), suf.length ≤ n → ∀ (pre : List Char) (l : Lexer) (f : Nat),
     text = pre ++ suf → Gnd file l pre suf → EndsNL suf → (encodeChars suf).length + 3 ≤ f →
-    Outcome text file l.inPattern suf (nextTokenLoop f l) := by
+    Outcome text file l.inPattern pre suf (nextTokenLoop f l) := by
   intro n
   induction n using Nat.strongRecOn with
   | _ n ih =>
@@ -632,7 +663,8 @@ theorem ground_sim : ∀ (n : Nat) (suf : List Char), suf.length ≤ n → ∀ (
       simpa using this
     obtain ⟨g1, g2, g3, g4, g5, g6⟩ := groundStart_chars l pre bl suf' hblsp hhead (by rw [← hsplit]; exact hg.cur)
       (by rw [← hsplit]; exact hg.posn)
-    apply Outcome_congr text file _ suf suf' _ (by rw [hsplit]; exact skipGround_blanks bl suf' hblsp)
+    apply Outcome_congr text file _ pre (pre ++ bl) suf suf' _
+      (by rw [hsplit]; exact skipGround_blanks bl suf' hblsp) (by simp)
     have htext : text = (pre ++ bl) ++ suf' := by rw [ht, hsplit]; simp
     have hready0 : Ready file (groundStart l) := g6.ready hg.ready
     have hnl' : EndsNL suf' := by rw [hsplit] at hnl; exact hnl.suffix
@@ -724,7 +756,206 @@ theorem ground_sim : ∀ (n : Nat) (suf : List Char), suf.length ≤ n → ∀ (
                 some (some (⟨.sq s0, text.length - (r.length + 1)⟩, r')) := by simp [specNextG, hsc]
             rw [this]
             exact Or.inr ⟨by simp [badEsc], hcase.1, hcase.2⟩
-        · sorry
+        · by_cases hdq : c = '"'
+          · -- double-quoted string
+            subst hdq
+            rw [lexGround_dq l ((k '"').2 rfl), ← hl1]
+            obtain ⟨f, rfl⟩ : ∃ f', f = f' + 2 := ⟨f - 2, by omega⟩
+            have hcase := dq_case text file l.inPattern f l1 (pre ++ bl) r htext hk hpat1
+            unfold Outcome
+            rw [specNext_tok text '"' r hcs (by decide)]
+            cases hsc : scanDq r with
+            | none =>
+              rw [hsc] at hcase
+              have : specNextG text.length (some ('"' :: r)) = none := by simp [specNextG, hsc]
+              rw [this]
+              simp only at hcase ⊢
+              exact hcase _
+            | some p =>
+              obtain ⟨items, r'⟩ := p
+              rw [hsc] at hcase
+              have : specNextG text.length (some ('"' :: r)) =
+                  some (some (⟨.dq items, text.length - (r.length + 1)⟩, r')) := by simp [specNextG, hsc]
+              rw [this]
+              simp only at hcase ⊢
+              rcases hcase with ⟨h1, h2⟩ | ⟨h1, h2, h3⟩
+              · exact Or.inl ⟨h1, h2 _⟩
+              · exact Or.inr ⟨h1, h2, h3⟩
+          · have hdelim : isDelim c = false := by
+              simp [isDelim, hcs, hn1, hn2, hn3, hsq, hdq]
+            by_cases hsl : c = '/'
+            · subst hsl
+              rw [lexGround_slash l ((k '/').2 rfl), ← hl1]
+              obtain ⟨n1, n2, n3, _, n5⟩ := next_char l1 (pre ++ bl) r '/' hk.cur (hk.pos.posN _)
+              cases hr : r with
+              | nil =>
+                -- a lone `/` at the end
+                rw [hr] at n2 htext hk
+                obtain ⟨e1, e2, e3, e4, e5⟩ := peek_eof (next l1).2 _ n2
+                rw [groundSlash_tok l1 (by rw [e1]; decide) (by rw [e1]; decide)]
+                obtain ⟨f, rfl⟩ : ∃ f', f = f' + 2 := ⟨f - 2, by omega⟩
+                have hfr := n5.trans e5
+                obtain ⟨q1, q2⟩ := unq_from text file l.inPattern f (peek (next l1).2).2 (pre ++ bl) ['/'] [] '/' []
+                  htext rfl e2 (by
+                    show Pos _ _
+                    exact ⟨by rw [e3]; exact n3.col, by rw [e4]; exact n3.tcol⟩)
+                  (hfr.start.trans hk.start) (hfr.sline.trans hk.sline) (hfr.scol.trans hk.scol)
+                  (hfr.ready hk.ready) (hfr.inPattern.trans hpat1) (by simp)
+                unfold Outcome specNext
+                rw [skipGround_slash, afterSlash_token [] (fun c r' h => by cases h)]
+                have : specNextG text.length (some ['/']) =
+                    some (some (⟨.unq ['/'], text.length - (([] : List Char).length + 1)⟩, [])) := by
+                  simp [specNextG, isDelim, isSpace]
+                rw [this]
+                exact Or.inr ⟨by simp [badEsc], q1, q2⟩
+              | cons d r1 =>
+                rw [hr] at n2 htext hk hnl' hslen hfuel
+                by_cases hd1 : d = '/'
+                · -- `//`
+                  subst hd1
+                  have hmem : '\n' ∈ r1 := by
+                    have := hnl'.mem (by simp)
+                    simpa using this
+                  obtain ⟨s0, r2, hr1, hs0⟩ := split_first '\n' r1 hmem
+                  rw [hr1] at hk htext hslen hfuel
+                  obtain ⟨c1, c2⟩ := line_comment file l1 (pre ++ bl) s0 r2 hk hs0
+                  have hout := ih ('\n' :: r2).length (by
+                      simp only [List.length_cons, List.length_append] at hslen ⊢; omega)
+                    ('\n' :: r2) (Nat.le_refl _) _ (groundSlash l1) f (by rw [htext]; simp) c1
+                    (by rw [hr1] at hnl'
+                        have h1 : EndsNL (['/', '/'] ++ s0 ++ '\n' :: r2) := by simpa using hnl'
+                        exact h1.suffix)
+                    (by
+                      have h1 : (encodeChars ('\n' :: r2)).length ≤ (encodeChars ('/' :: (s0 ++ '\n' :: r2))).length := by
+                        rw [show '/' :: (s0 ++ '\n' :: r2) = ('/' :: s0) ++ '\n' :: r2 from rfl,
+                          encodeChars_length_append]; omega
+                      omega)
+                  rw [c2, hpat1] at hout
+                  refine Outcome_congr text file _ _ _ _ _ _ ?_ (by simp) hout
+                  rw [skipGround_slash, afterSlash_line, hr1, skipLine_found s0 r2 hs0]
+                  rw [skipGround]; simp [isSpace]
+                · by_cases hd2 : d = '*'
+                  · -- `/*`
+                    subst hd2
+                    have hcase := block_comment file l1 (pre ++ bl) r1 hk
+                    cases hfs : findSS r1 with
+                    | none =>
+                      rw [hfs] at hcase
+                      unfold Outcome specNext
+                      rw [skipGround_slash, afterSlash_block, skipBlock_none r1 hfs]
+                      simp only [specNextG]
+                      exact nextTokenLoop_keeps f _ hcase
+                    | some p =>
+                      obtain ⟨s0, r2⟩ := p
+                      rw [hfs] at hcase
+                      obtain ⟨c1, c2⟩ := hcase
+                      have hsp := findSS_split r1.length r1 (Nat.le_refl _) s0 r2 hfs
+                      have hout := ih r2.length (by
+                          rw [hsp] at hslen
+                          simp only [List.length_cons, List.length_append] at hslen ⊢; omega)
+                        r2 (Nat.le_refl _) _ (groundSlash l1) f (by rw [htext, hsp]; simp) c1
+                        (by rw [hsp] at hnl'
+                            have h1 : EndsNL (['/', '*'] ++ s0 ++ ['*', '/'] ++ r2) := by simpa using hnl'
+                            exact h1.suffix)
+                        (by
+                          rw [hsp] at hfuel
+                          have h1 : (encodeChars r2).length ≤ (encodeChars ('*' :: (s0 ++ '*' :: '/' :: r2))).length := by
+                            rw [show '*' :: (s0 ++ '*' :: '/' :: r2) = ('*' :: s0 ++ ['*', '/']) ++ r2 by simp,
+                              encodeChars_length_append]; omega
+                          omega)
+                      rw [c2, hpat1] at hout
+                      refine Outcome_congr text file _ _ _ _ _ _ ?_ (by simp) hout
+                      rw [skipGround_slash, afterSlash_block, skipBlock_found r1 s0 r2 hfs]
+                  · -- a token that starts with `/`
+                    obtain ⟨e1, e2, e3, e4⟩ := peek_char (next l1).2 _ r1 d n2 (n3.posN _)
+                    rw [groundSlash_tok l1 (by rw [e1]; intro h; exact hd1 ((toNat_eq_iff d '/').1 h))
+                      (by rw [e1]; intro h; exact hd2 ((toNat_eq_iff d '*').1 h))]
+                    obtain ⟨f, rfl⟩ : ∃ f', f = f' + 2 := ⟨f - 2, by omega⟩
+                    have hfr := n5.trans e4
+                    obtain ⟨q1, q2⟩ := unq_from text file l.inPattern f (peek (next l1).2).2 (pre ++ bl) ['/']
+                      (d :: r1) '/' (d :: r1) htext rfl e2 e3 (hfr.start.trans hk.start) (hfr.sline.trans hk.sline)
+                      (hfr.scol.trans hk.scol) (hfr.ready hk.ready) (hfr.inPattern.trans hpat1) (by simp)
+                    unfold Outcome specNext
+                    rw [skipGround_slash, afterSlash_token (d :: r1) (fun c' r' h => by
+                      simp only [List.cons.injEq] at h; rw [← h.1]; exact ⟨hd1, hd2⟩)]
+                    obtain ⟨t1, t2⟩ := takeWhile_cons_nondelim '/' (d :: r1) (by simp [isDelim, isSpace])
+                    have : specNextG text.length (some ('/' :: d :: r1)) =
+                        some (some (⟨.unq ('/' :: (d :: r1).takeWhile (fun x => !isDelim x)),
+                          text.length - ((d :: r1).length + 1)⟩, (d :: r1).dropWhile (fun x => !isDelim x))) := by
+                      simp only [specNextG]
+                      rw [t1, t2]
+                      simp
+                    rw [this]
+                    exact Or.inr ⟨by simp [badEsc], q1, q2⟩
+            · by_cases hpl : c = '+'
+              · subst hpl
+                rw [lexGround_plus l ((k '+').2 rfl), ← hl1]
+                obtain ⟨n1, n2, n3, _, n5⟩ := next_char l1 (pre ++ bl) r '+' hk.cur (hk.pos.posN _)
+                unfold Outcome
+                rw [specNext_tok text '+' r hcs (by decide)]
+                obtain ⟨t1, t2⟩ := takeWhile_cons_nondelim '+' r (by simp [isDelim, isSpace])
+                have hspec : specNextG text.length (some ('+' :: r)) =
+                    some (some (⟨.unq ('+' :: r.takeWhile (fun x => !isDelim x)),
+                      text.length - (r.length + 1)⟩, r.dropWhile (fun x => !isDelim x))) := by
+                  simp only [specNextG]
+                  rw [t1, t2]
+                  simp
+                rw [hspec]
+                cases hr : r with
+                | nil =>
+                  rw [hr] at n2 htext hk
+                  obtain ⟨e1, e2, e3, e4, e5⟩ := peek_eof (next l1).2 _ n2
+                  rw [groundPlus_tok l1 (by rw [e1]; decide) (by rw [e1]; decide)]
+                  obtain ⟨f, rfl⟩ : ∃ f', f = f' + 2 := ⟨f - 2, by omega⟩
+                  have hfr := n5.trans e5
+                  obtain ⟨q1, q2⟩ := unq_from text file l.inPattern f (peek (next l1).2).2 (pre ++ bl) ['+'] [] '+' []
+                    htext rfl e2 (by
+                      show Pos _ _
+                      exact ⟨by rw [e3]; exact n3.col, by rw [e4]; exact n3.tcol⟩)
+                    (hfr.start.trans hk.start) (hfr.sline.trans hk.sline) (hfr.scol.trans hk.scol)
+                    (hfr.ready hk.ready) (hfr.inPattern.trans hpat1) (by simp)
+                  exact Or.inr ⟨by simp [badEsc], q1, q2⟩
+                | cons d r1 =>
+                  rw [hr] at n2 htext hk
+                  obtain ⟨e1, e2, e3, e4⟩ := peek_char (next l1).2 _ r1 d n2 (n3.posN _)
+                  by_cases hq : d = '"' ∨ d = '\''
+                  · -- `+` directly before a quote
+                    obtain ⟨f, rfl⟩ : ∃ f', f = f' + 1 := ⟨f - 1, by omega⟩
+                    obtain ⟨q1, q2⟩ := plus_quote text file l.inPattern f l1 (pre ++ bl) r1 d hq htext hk hpat1
+                    have hdd : isDelim d = true := by
+                      rcases hq with h | h <;> (rw [h]; decide)
+                    have h1 : (d :: r1).takeWhile (fun x => !isDelim x) = [] := by
+                      simp [List.takeWhile_cons, hdd]
+                    have h2 : (d :: r1).dropWhile (fun x => !isDelim x) = d :: r1 := by
+                      simp [List.dropWhile_cons, hdd]
+                    rw [h1, h2]
+                    exact Or.inr ⟨by simp [badEsc], q1, q2⟩
+                  · have hq1 : d ≠ '"' := fun h => hq (Or.inl h)
+                    have hq2 : d ≠ '\'' := fun h => hq (Or.inr h)
+                    rw [groundPlus_tok l1 (by rw [e1]; intro h; exact hq1 ((toNat_eq_iff d '"').1 h))
+                      (by rw [e1]; intro h; exact hq2 ((toNat_eq_iff d '\'').1 h))]
+                    obtain ⟨f, rfl⟩ : ∃ f', f = f' + 2 := ⟨f - 2, by omega⟩
+                    have hfr := n5.trans e4
+                    obtain ⟨q1, q2⟩ := unq_from text file l.inPattern f (peek (next l1).2).2 (pre ++ bl) ['+']
+                      (d :: r1) '+' (d :: r1) htext rfl e2 e3 (hfr.start.trans hk.start) (hfr.sline.trans hk.sline)
+                      (hfr.scol.trans hk.scol) (hfr.ready hk.ready) (hfr.inPattern.trans hpat1) (by simp)
+                    exact Or.inr ⟨by simp [badEsc], q1, q2⟩
+              · -- any other character starts an unquoted token
+                rw [lexGround_other l hne0 (fun h => hn1 ((k ';').1 h)) (fun h => hn2 ((k '{').1 h))
+                  (fun h => hn3 ((k '}').1 h)) (fun h => hsq ((k '\'').1 h)) (fun h => hdq ((k '"').1 h))
+                  (fun h => hsl ((k '/').1 h)) (fun h => hpl ((k '+').1 h)), ← hl1]
+                obtain ⟨f, rfl⟩ : ∃ f', f = f' + 2 := ⟨f - 2, by omega⟩
+                obtain ⟨q1, q2⟩ := unq_from text file l.inPattern f l1 (pre ++ bl) [] (c :: r) c r htext rfl
+                  (by simpa using hk.cur) (by simpa using p3) hk.start hk.sline hk.scol hk.ready hpat1
+                  (by simp [List.takeWhile_cons, hdelim])
+                unfold Outcome
+                rw [specNext_tok text c r hcs hsl]
+                have hspec : specNextG text.length (some (c :: r)) =
+                    some (some (⟨.unq ((c :: r).takeWhile (fun x => !isDelim x)),
+                      text.length - (r.length + 1)⟩, (c :: r).dropWhile (fun x => !isDelim x))) := by
+                  simp [specNextG, hn1, hn2, hn3, hsq, hdq]
+                rw [hspec]
+                exact Or.inr ⟨by simp [badEsc], by simpa using q1, by simpa using q2⟩
 
 end
 
